@@ -181,12 +181,12 @@ def _agree(a, b, tolerant):
     """exact mode: equal rationals or DIFF.  Tolerant mode (a float fold happened, or the
     oracle itself approximated a non-integer power), with d = |a - b|:
       SAME  iff d <= 1e-12 * max(|a|, |b|)  (tight, relative to the values themselves)
-              or d <= 1e-13 * scale          (rounding level even under cancellation)
       DIFF  iff d >  1e-9 * scale            (six orders above double rounding, conditioning included)
       SKIP  otherwise.
-    `scale` over-estimates magnitudes (it multiplies absolute values through powers), so it
-    is only trusted for the DIFF side; judging SAME relative to scale made a false equation
-    look true after a restructuring changed the scale."""
+    `scale` over-estimates magnitudes (it multiplies absolute values through powers; 13 orders
+    of magnitude have been observed), so it is only trusted for the DIFF side: judging SAME
+    relative to scale -- even at 1e-13 -- made blatantly false equations look true, and the
+    verdict flipped when a rewrite merely changed the scale."""
     if a.ill or b.ill:
         return SKIP
     approx = a.approx or b.approx
@@ -200,13 +200,13 @@ def _agree(a, b, tolerant):
         sc = max(_f(a.s), _f(b.s))
         d = abs(av - bv)
         mag = max(abs(av), abs(bv))
-        if d <= 1e-12 * mag or d <= 1e-13 * sc:
+        if d <= 1e-12 * mag:
             return SAME
         return DIFF if d > 1e-9 * sc else SKIP
     d = abs(a.v - b.v)
     sc = max(a.s, b.s)
     mag = max(abs(a.v), abs(b.v))
-    if d <= Fraction(1, 10 ** 12) * mag or d <= Fraction(1, 10 ** 13) * sc:
+    if d <= Fraction(1, 10 ** 12) * mag:
         return SAME
     return DIFF if d > TOL_OK * sc else SKIP
 
